@@ -157,6 +157,28 @@ def roundtrip_case(draw):
                 dts.append(other)
         except (OverflowError, ValueError):
             pass
+    # the same zone object in another season (its offset differs), before or after the value it was derived from
+    for _ in range(draw(st.integers(0, 2))):
+        j = draw(st.integers(0, len(dts) - 1))
+        base = dts[j]
+        if base.tzinfo is None:
+            continue
+        try:
+            other = base.replace(fold=0) + _d.timedelta(days=draw(st.sampled_from([182, -182, 91, -91, 365])))
+        except OverflowError:
+            continue
+        if other.utcoffset() is None or not other.utcoffset().microseconds:
+            dts.insert(draw(st.sampled_from([j, j + 1, len(dts)])), other)
+    if draw(st.integers(0, 3)) == 0:
+        # a zone that coincides with UTC for part of the year, both seasons in one file (either order)
+        from zoneinfo import ZoneInfo
+
+        z = ZoneInfo(draw(st.sampled_from(["Europe/London", "Europe/Lisbon", "Africa/Casablanca", "Europe/Dublin"])))
+        y = draw(st.integers(1975, 2037))
+        pair = [_d.datetime(y, 1, 15, 12, 30, 1, 5, tzinfo=z), _d.datetime(y, 7, 15, 12, 30, 1, 5, tzinfo=z)]
+        if draw(st.booleans()):
+            pair.reverse()
+        dts = (pair + dts) if draw(st.booleans()) else (dts + pair)
     return {"dts": dts, "fmt": draw(st.sampled_from(["stream", "stream.gz", "json", "sqlite", "avro"]))}
 
 
